@@ -1,6 +1,8 @@
 """C06 - pixel transforms follow the DICOM pipeline and the tri-state flags.
 
 Implementation driven (real code from $VERIF_REPO/src):
+  (tables and input arrays are handed over in drawn numpy memory layouts: byte order, strides, offsets,
+  read-only / unaligned buffers - the results must depend on the logical values only)
   hd.Image.from_dataset(...).get_frame / get_frames / get_volume / get_total_pixel_matrix and
   hd.get_volume_from_series  (image.py _CombinedPixelTransform __init__ + __call__, the
   applies_to_all_frames reuse in get_frames / _get_pixels_by_frame), hd.LUT / VOILUT / ModalityLUT objects (lut_data, apply,
@@ -38,9 +40,10 @@ MODELLED = ('image.py _CombinedPixelTransform.__init__ (flag gate, discovery roo
             'folding, dtype checks, applies_to_all_frames) and __call__; get_frames / _get_pixels_by_frame (get_volume, '
             'get_total_pixel_matrix) transform reuse; get_volume_from_series; pixels.py selectors, apply_voi_window, apply_lut, '
             '_check_rescale_dtype, palette LUT parsing; content.py LUT (descriptor, lut_data, scaled, inverted, '
-            'apply), VOILUTTransformation.apply; pm/content.py RealWorldValueMapping.apply')
+            'apply), VOILUTTransformation.apply; pm/content.py RealWorldValueMapping.apply; LUT.__init__ over the memory '
+            'layout of the array it is given (nparr: buffer, byte offset, byte stride, item size, byte order)')
 STRATA = ['mono', 'mono_mf', 'mono_mf_nonuniform', 'mono_vol', 'series', 'series_voi', 'series_attr', 'tpm', 'flags', 'palette', 'lut', 'lut_big', 'lut_err', 'voi_apply', 'rwvm_apply',
-          'window', 'malformed']
+          'window', 'malformed', 'lut_layout', 'mono_lut_layout']
 NOT_EXECUTED = ['ICC colour management (no ICC profile in the synthetic images; out of the property)',
                 'segmented palette colour LUTs (the code raises RuntimeError: not implemented)',
                 'slice / row / column sub-ranges of get_volume and get_total_pixel_matrix (whole stacks and whole '
@@ -64,13 +67,21 @@ RULE = ('mono: single-frame images, random modality (rescale integer / dyadic / 
         'same kinds of parameters (open finding D106), read through get_frame / get_frames / get_volume. flags: all 3^5 x 2 flag vectors on fixed '
         'datasets. palette: 8/16-bit tables, odd/even lengths, any first value. lut*: LUT objects incl. 65536 entries '
         'and padded 8-bit tables. malformed: each guard violated. non-trivial = at least 2 distinct output values or '
-        'a rejection; distinct by case hash')
+        'a rejection; distinct by case hash. MEMORY LAYOUTS: every table handed to hd.LUT / VOILUT / ModalityLUT / '
+        'PresentationLUT / PaletteColorLUT (stand-alone, inside images, user VOI LUTs, series) and every input array of '
+        'LUT.apply / VOILUTTransformation.apply / RealWorldValueMapping.apply / apply_voi_window is built in a drawn memory '
+        'layout: native, explicit little-endian, BIG-ENDIAN, strided (step 2, 3), reversed (negative stride), offset into a '
+        'larger buffer, np.frombuffer over immutable bytes (read-only, optionally unaligned), read-only flag. lut_layout: '
+        'stand-alone tables in every preset layout (each at least twice per run) + random ones through the four LUT classes, '
+        'in memory and after a file round trip; observed: descriptor, the stored LUTData bytes, lut_data, apply; the model is '
+        'given the array MEMORY (buffer, offset, stride, item size, byte order). mono_lut_layout: images whose Modality LUT / '
+        'VOI LUTs / user VOI LUT were built from non-native arrays (75 % big-endian), read through get_frame / get_frames')
 EXHAUSTIVE = {'quick': False, 'thorough': False}
 
 TRI = [True, False, None]
 FN = ['LINEAR', 'LINEAR_EXACT', 'SIGMOID']
 MONO_KINDS = ('mono', 'mono_mf', 'flags', 'malformed', 'mono_vol', 'series', 'series_voi', 'series_attr', 'tpm',
-              'mono_mf_nonuniform')
+              'mono_mf_nonuniform', 'mono_lut_layout')
 DTYPES = ['float64', 'float64', 'float64', 'float32', 'int16', 'uint16', 'int32', 'uint8', 'int64']
 
 
@@ -945,7 +956,156 @@ def gen_cases(rng, tier):
             c['flags'].update(voi=False, mod=None, rwvm=False)
         cases.append(c)
     rng.shuffle(cases)      # balance the Coq shards (multi-frame cases are the slow ones)
+    # ---- memory layouts (drawn after everything else: the stream of the cases above is unchanged) ----
+    import random
+    lrng = random.Random(rng.getrandbits(64))
+    for c in cases:
+        _assign_layouts(lrng, c)
+    extra = []
+    for i in range(70 * n):
+        extra.append(_lut_layout_case(lrng, preset=i % len(LAYOUT_PRESETS) if i < 2 * len(LAYOUT_PRESETS) else None))
+    for _ in range(45 * n):
+        extra.append(_mono_lut_layout_case(lrng))
+    for c in extra:
+        cases.insert(lrng.randrange(len(cases) + 1), c)
     return cases
+
+
+# the layouts every run draws at least twice for stand-alone tables (then random ones)
+LAYOUT_PRESETS = [
+    None,
+    {'big': False, 'step': 1, 'lead': 0, 'trail': 0, 'how': 'view', 'byteoff': 0, 'ro': False},     # explicit '<u2'
+    {'big': True, 'step': 1, 'lead': 0, 'trail': 0, 'how': 'view', 'byteoff': 0, 'ro': False},      # arr.astype('>u2')
+    {'big': False, 'step': 2, 'lead': 0, 'trail': 0, 'how': 'view', 'byteoff': 0, 'ro': False},     # strided view
+    {'big': True, 'step': 2, 'lead': 1, 'trail': 0, 'how': 'view', 'byteoff': 0, 'ro': False},      # big-endian strided view
+    {'big': False, 'step': -1, 'lead': 0, 'trail': 0, 'how': 'view', 'byteoff': 0, 'ro': False},    # reversed view
+    {'big': True, 'step': -1, 'lead': 0, 'trail': 2, 'how': 'view', 'byteoff': 0, 'ro': False},     # big-endian reversed
+    {'big': True, 'step': 1, 'lead': 0, 'trail': 0, 'how': 'buffer', 'byteoff': 0, 'ro': False},    # np.frombuffer(raw, '>u2')
+    {'big': True, 'step': 1, 'lead': 0, 'trail': 0, 'how': 'buffer', 'byteoff': 1, 'ro': False},    # ... unaligned
+    {'big': False, 'step': 1, 'lead': 3, 'trail': 0, 'how': 'buffer', 'byteoff': 1, 'ro': False},   # little-endian unaligned
+    {'big': True, 'step': 3, 'lead': 0, 'trail': 0, 'how': 'view', 'byteoff': 0, 'ro': True},       # read-only
+]
+
+
+def _each_lut(c):
+    """every LUT dict of a case (each object once)"""
+    seen, out = set(), []
+
+    def add(l):
+        if l is not None and id(l) not in seen:
+            seen.add(id(l))
+            out.append(l)
+    k = c['kind']
+    if k in MONO_KINDS:
+        add(c.get('modlut'))
+        for l in c.get('voiluts') or []:
+            add(l)
+        if isinstance(c.get('vsel'), dict):
+            for l in c['vsel'].get('userlut') or []:
+                add(l)
+        for o in c.get('slice_over') or []:
+            add(o.get('modlut'))
+            for l in o.get('voiluts') or []:
+                add(l)
+    elif k == 'voi_apply':
+        for l in c.get('luts') or []:
+            add(l)
+    return out
+
+
+def _assign_layouts(rng, c, p_native=0.4):
+    """give every table of the case (and the input arrays of the stand-alone objects) a memory layout"""
+    k = c['kind']
+    for l in _each_lut(c):
+        l['layout'] = _rand_layout(rng, p_native)
+    if k in ('lut', 'lut_big'):
+        c['layout'] = _rand_layout(rng, p_native)
+        c['cls'] = rng.choice(LUT_CLASSES)
+        if k == 'lut' and c.get('op') == 'apply':
+            c['xlayout'] = _rand_layout(rng, 0.5)
+    elif k in ('voi_apply', 'window'):
+        c['xlayout'] = _rand_layout(rng, 0.5)
+    elif k == 'rwvm_apply':
+        c['xlayout'] = _rand_layout(rng, 0.5)
+        if c['r']['kind'] == 'lut' and rng.random() < 0.6:
+            c['tlayout'] = _rand_layout(rng, 0.2)
+    elif k == 'palette' and not c.get('bad') and rng.random() < 0.6:
+        c['via'] = 'objects'
+        c['chan_layouts'] = [_rand_layout(rng, 0.3) for _ in range(3)]
+
+
+def _lut_layout_case(rng, preset=None):
+    """a stand-alone table handed to LUT / VOILUT / ModalityLUT / PresentationLUT in a memory layout; the
+    model is given the array's memory.  16-bit tables carry at least one entry whose two bytes differ"""
+    bits = rng.choice([16, 16, 16, 8])
+    L = rng.choice([1, 1, 2, 3, 4, 5, 7, 8, 9, 16, 31, rng.randint(1, 40)])
+    top = 2 ** bits - 1
+    mode = rng.choice(['rand', 'rand', 'low', 'ramp'])
+    if mode == 'rand':
+        data = [rng.randint(0, top) for _ in range(L)]
+    elif mode == 'low':
+        data = [rng.randint(0, min(top, 255)) for _ in range(L)]       # high byte 0: swapped = v * 256
+    else:
+        a, b = rng.randint(1, 999), rng.randint(0, top)
+        data = [(a * i + b) % (top + 1) for i in range(L)]
+    if bits == 16 and all(v % 256 == v // 256 for v in data):
+        data[rng.randrange(L)] = rng.choice([300, 65000, 1, 256, 4000])
+    first = rng.choice([0, 1, 5, 65535, rng.randint(0, 65535)])
+    lay = dict(LAYOUT_PRESETS[preset] or {}) or None if preset is not None else _rand_layout(rng, 0.1, 0.7)
+    xs = [first - 2, first - 1, first, first + 1, first + L - 2, first + L - 1, first + L, first + L + 5,
+          rng.randint(first - 10, first + L + 10)]
+    xcode = rng.choice(['i8', 'i8', 'i4', 'i2'])
+    lim = 2 ** (8 * ITEM_OF[xcode] - 1)
+    xs = [max(-lim, min(lim - 1, x)) for x in xs]
+    return {'kind': 'lut_layout', 'cls': rng.choice(LUT_CLASSES), 'first': first, 'data': data, 'bits': bits,
+            'layout': lay, 'file': rng.random() < 0.3, 'xs': xs, 'xcode': xcode, 'xlayout': _rand_layout(rng, 0.5)}
+
+
+def _mono_lut_layout_case(rng):
+    """an image that carries lookup tables (Modality LUT, VOI LUTs, or a user VOI LUT given through
+    voi_transform_selector) built from arrays in NON-native memory layouts, read through get_frame /
+    get_frames with the stages that use them switched on"""
+    while True:
+        c = _mono_case(rng, rng.random() < 0.25)
+        c.pop('prior', None)
+        if c['dtype'] not in ('float64', 'float32'):
+            c['dtype'] = 'float64'
+        how = rng.choice(['keep', 'modlut', 'voilut', 'userlut', 'both'])
+        lvls = [c['root'], c['shared']] + (c['perframe'] or [])
+        if how != 'keep':
+            for lv in lvls:
+                if lv:
+                    lv['rwvm'] = None
+            c['flags'].update(rwvm=False, mod=rng.choice([None, True]), pal=None, icc=None)
+        if how in ('modlut', 'both') and not c['signed'] and c['perframe'] is None:
+            for lv in lvls:
+                if lv:
+                    lv['slope'] = lv['icpt'] = None
+            c['modlut'] = _lut(rng, lo_len=3, bits=rng.choice([8, 16, 16]))
+            c['modlut']['first'] = rng.choice([0, 1, 2])
+            if how == 'modlut':
+                c['voiluts'] = None
+                c['flags']['voi'] = rng.choice([False, None])
+        if how in ('voilut', 'both') and not c['signed']:
+            for lv in lvls:
+                if lv:
+                    lv['win'] = None
+                    if how == 'voilut':
+                        lv['slope'] = lv['icpt'] = None
+            if how == 'voilut':
+                c['modlut'] = None
+            c['voiluts'] = [_lut(rng, lo_len=2, expl=f'V{i}', bits=16, maxfirst=20) for i in range(rng.choice([1, 2]))]
+            c['vsel'] = rng.choice([0, -1, 'V0'])
+            c['flags'].update(voi=rng.choice([None, True]), mod=None)
+        if how == 'userlut':
+            c['vsel'] = {'userlut': [_lut(rng, lo_len=2, bits=16)]}
+            c['flags'].update(voi=True, mod=None)
+        if _each_lut(c):
+            break
+    c['kind'] = 'mono_lut_layout'
+    for l in _each_lut(c):
+        l['layout'] = _rand_layout(rng, 0.0, 0.75)
+    return c
 
 
 # --------------------------------------------------------------------------
@@ -960,15 +1120,116 @@ def _np_dtype(c):
     return {(8, False): np.uint8, (8, True): np.int8, (16, False): np.uint16, (16, True): np.int16}[(c['alloc'], c['signed'])]
 
 
+# --------------------------------------------------------------------------
+# memory layout of numpy arrays handed to the API (tables and input arrays)
+# --------------------------------------------------------------------------
+# A layout is None (= np.array(values, dtype): native byte order, contiguous, owns its data) or a dict
+#   big     16/32/64-bit items in big-endian byte order (dtype '>u2' ...)
+#   step    the array is the view own[start::step] of a larger array (step 1, 2, 3, -1, -2 ...)
+#   lead    number of foreign items in front of the first item (and `trail` behind the last one)
+#   how     'view' (slice of an owning array) | 'buffer' (np.frombuffer over an immutable bytes object,
+#           optionally `byteoff` extra bytes in front: read-only and, for byteoff = 1, unaligned)
+#   ro      read-only flag set
+# The logical values of the array are ALWAYS the given values; only the memory differs.
+ITEM_OF = {'u1': 1, 'u2': 2, 'i2': 2, 'i4': 4, 'i8': 8, 'f8': 8}
+
+
+def _rand_layout(rng, p_native=0.4, p_big=0.6):
+    if rng.random() < p_native:
+        return None
+    lay = {'big': rng.random() < p_big, 'step': rng.choice([1, 1, 1, 2, 3, -1, -2]),
+           'lead': rng.choice([0, 0, 1, 3]), 'trail': rng.choice([0, 0, 2]),
+           'how': rng.choice(['view', 'view', 'view', 'buffer']), 'byteoff': 0, 'ro': rng.random() < 0.15}
+    if lay['how'] == 'buffer' and rng.random() < 0.5:
+        lay['byteoff'] = 1
+    return lay
+
+
+def _filler(i, code):
+    """junk in the foreign items of the owning buffer (a wrong stride / offset must be visible)"""
+    v = (40503 * (i + 1) + 12345) % 65536
+    return float(v) + 0.5 if code == 'f8' else (v % 251 if code in ('u1',) else v % 30000)
+
+
+def _mem_array(values, code, lay):
+    """(numpy array with the given logical values and memory layout, memory description).
+    code in ITEM_OF; the description (buffer bytes, byte offset, byte stride, count, item size, big) is what
+    the Coq model of the array (C06_Model.v nparr) is given"""
+    import numpy as np
+    n = len(values)
+    item = ITEM_OF[code]
+    if lay is None:
+        arr = np.array(values, dtype=np.dtype(code))
+        big = (sys.byteorder == 'big') and item > 1
+        return arr, {'buf': list(arr.tobytes()), 'off': 0, 'stride': item, 'n': n, 'item': item, 'big': big}
+    big = bool(lay.get('big')) and item > 1
+    dt = np.dtype(('>' if big else '<') + code) if item > 1 else np.dtype(code)
+    step = lay.get('step', 1) or 1
+    lead, trail = lay.get('lead', 0), lay.get('trail', 0)
+    span = (max(n, 1) - 1) * abs(step) + 1
+    m = lead + span + trail
+    own = np.array([_filler(i, code) for i in range(m)], dtype=dt)
+    start = lead if step > 0 else lead + span - 1
+    if n:
+        idx = [start + i * step for i in range(n)]
+        own[idx] = np.array(values, dtype=np.dtype(code))
+    byteoff = lay.get('byteoff', 0) if lay.get('how') == 'buffer' else 0
+    if lay.get('how') == 'buffer':
+        raw = b'\x00' * byteoff + own.tobytes()
+        own2 = np.frombuffer(raw, dtype=dt, offset=byteoff)
+    else:
+        raw = own.tobytes()
+        own2 = own
+    if n == 0:
+        arr = own2[0:0]
+    elif step > 0:
+        arr = own2[start:start + span:step]
+    else:
+        stop = start - span
+        arr = own2[start:(stop if stop >= 0 else None):step]
+    if lay.get('ro') and arr.flags.writeable:
+        arr = arr.view()
+        arr.setflags(write=False)
+    desc = {'buf': list(raw), 'off': byteoff + start * item, 'stride': step * item, 'n': n, 'item': item, 'big': big}
+    # self-check of the description against numpy's own bookkeeping
+    assert arr.shape == (n,) and (n == 0 or arr.strides[0] == desc['stride']), (arr.strides, desc['stride'])
+    if n:
+        base_addr = own2.__array_interface__['data'][0] - byteoff
+        assert arr.__array_interface__['data'][0] - base_addr == desc['off']
+        assert (arr.dtype.byteorder == '>') == big or item == 1
+        assert arr.tolist() == np.array(values, dtype=np.dtype(code)).tolist()
+    return arr, desc
+
+
+def _table_array(l):
+    """the numpy array of a LUT dict / LUT case (keys data | gen, bits, layout)"""
+    data = l['data'] if l.get('data') is not None else _gen_data(l)
+    return _mem_array(data, 'u1' if l['bits'] == 8 else 'u2', l.get('layout'))[0]
+
+
+def _make_lut(cls, first, arr, expl=None):
+    import highdicom as hd
+    if cls == 'VOILUT':
+        return hd.VOILUT(first, arr, expl)
+    if cls == 'ModalityLUT':
+        return hd.ModalityLUT('US', first, arr, expl)
+    if cls == 'PresentationLUT':
+        return hd.PresentationLUT(first, arr, expl)
+    return hd.LUT(first, arr, expl)
+
+
+LUT_CLASSES = ['LUT', 'VOILUT', 'ModalityLUT', 'PresentationLUT']
+
+
+def _xarr(xs, code, lay):
+    """input array (pixel values) in a memory layout; falls back to a wider item when a value does not fit"""
+    return _mem_array(xs, code, lay)[0]
+
+
 def _mk_lut_obj(l, cls='LUT'):
     import numpy as np
     import highdicom as hd
-    arr = np.array(l['data'], dtype=np.uint8 if l['bits'] == 8 else np.uint16)
-    if cls == 'VOILUT':
-        return hd.VOILUT(l['first'], arr, l.get('expl'))
-    if cls == 'ModalityLUT':
-        return hd.ModalityLUT('US', l['first'], arr, l.get('expl'))
-    return hd.LUT(l['first'], arr, l.get('expl'))
+    return _make_lut(cls, l['first'], _table_array(l), l.get('expl'))
 
 
 def _rwvm_item(r):
@@ -1230,6 +1491,18 @@ def _build_palette(c):
     ds.PixelRepresentation = 0
     ds.PhotometricInterpretation = 'PALETTE COLOR'
     ds.PixelData = np.array(c['pixels'], dtype=np.uint8 if c['alloc'] == 8 else np.uint16).tobytes()
+    if c.get('via') == 'objects':
+        # the three channels through hd.PaletteColorLUT (each table in its own memory layout) and
+        # hd.PaletteColorLUTTransformation; the image carries what these objects serialised
+        code = 'u1' if c['bits'] == 8 else 'u2'
+        luts = [hd.PaletteColorLUT(c['first'], _mem_array(c['data'][k], code, c['chan_layouts'][k])[0], col)
+                for k, col in enumerate(['red', 'green', 'blue'])]
+        tr = hd.PaletteColorLUTTransformation(*luts)
+        for name in ['Red', 'Green', 'Blue']:
+            for suffix in ('Descriptor', 'Data'):
+                kw = f'{name}PaletteColorLookupTable{suffix}'
+                setattr(ds, kw, getattr(tr, kw))
+        return hd.Image.from_dataset(ds)
     desc, chans = _palette_raw(c)
     for name, b in zip(['Red', 'Green', 'Blue'], chans):
         setattr(ds, f'{name}PaletteColorLookupTableDescriptor', list(desc))
@@ -1336,17 +1609,17 @@ def run_impl(c):
         return r
     if k == 'lut':
         data = _gen_data(c)
-        arr = np.array(data, dtype=np.uint8 if c['bits'] == 8 else np.uint16)
 
         def f():
-            lut = hd.LUT(c['first'], arr)
+            # the table in the case's memory layout, through the case's entry point (LUT or a subclass)
+            lut = _make_lut(c.get('cls', 'LUT'), c['first'], _table_array(c))
             if c['op'] in ('roundtrip', 'roundtrip_file'):
                 if c['op'] == 'roundtrip_file':
                     lut = _through_file_checked(lut)
                 d = [int(x) for x in lut.LUTDescriptor]
                 return [d[0], d[1], d[2], _nbytes(lut.LUTData), catch(lambda: _summary(lut.lut_data.tolist(), c))]
             if c['op'] == 'apply':
-                return lut.apply(np.array(c['xs'], dtype=np.int64)).tolist()
+                return lut.apply(_xarr(c['xs'], 'i8', c.get('xlayout'))).tolist()
             if c['op'] == 'scaled':
                 out = lut.get_scaled_lut_data(output_range=(float(F(c['yrange'][0])), float(F(c['yrange'][1]))),
                                               invert=c['invert'])
@@ -1356,12 +1629,26 @@ def run_impl(c):
             if c['op'] == 'inverted':
                 return lut.get_inverted_lut_data().tolist()
         return catch(f)
+    if k == 'lut_layout':
+        def f():
+            arr, _ = _mem_array(c['data'], 'u1' if c['bits'] == 8 else 'u2', c['layout'])
+            keep = arr.tolist()
+            lut = _make_lut(c['cls'], c['first'], arr)
+            if arr.tolist() != keep:
+                return Err('CallerArrayModified')
+            if c['file']:
+                lut = _through_file_checked(lut)
+            d = [int(x) for x in lut.LUTDescriptor]
+            raw = lut.LUTData
+            raw = list(raw) if isinstance(raw, (bytes, bytearray)) else [int(raw) % 256, int(raw) // 256]
+            return [d[0], d[1], d[2], len(raw), _summary(raw, c), catch(lambda: _summary(lut.lut_data.tolist(), c)),
+                    catch(lambda: lut.apply(_xarr(c['xs'], c.get('xcode', 'i8'), c.get('xlayout'))).tolist())]
+        return catch(f)
     if k == 'lut_big':
         data = _gen_data(c)
-        arr = np.array(data, dtype=np.uint8 if c['bits'] == 8 else np.uint16)
 
         def f():
-            lut = hd.LUT(c['first'], arr)
+            lut = _make_lut(c.get('cls', 'LUT'), c['first'], _table_array(c))
             if c['file']:
                 lut = _through_file_checked(lut)
             d = [int(x) for x in lut.LUTDescriptor]
@@ -1404,7 +1691,7 @@ def run_impl(c):
             if c['luts'] is not None:
                 kw['voi_luts'] = [_mk_lut_obj(l, 'VOILUT') for l in c['luts']]
             t = hd.VOILUTTransformation(**kw)
-            return t.apply(np.array(c['xs'], dtype=np.int32),
+            return t.apply(_xarr(c['xs'], 'i4', c.get('xlayout')),
                            output_range=(float(F(c['yrange'][0])), float(F(c['yrange'][1]))),
                            voi_transform_selector=c['sel'], invert=c['invert'], prefer_lut=c['prefer_lut']).tolist()
         return catch(f)
@@ -1419,14 +1706,18 @@ def run_impl(c):
                 t = hd.pm.RealWorldValueMapping(value_range=vr, slope=float(F(r['slope'])),
                                                 intercept=float(F(r['icpt'])), **kw)
             else:
+                tab = [float(F(x)) for x in r['data']]
+                if c.get('tlayout') is not None:
+                    tab = _mem_array(tab, 'f8', c['tlayout'])[0]      # the table as a numpy array in a layout
                 t = hd.pm.RealWorldValueMapping(value_range=(int(r['first']), int(r['last'])),
-                                                lut_data=[float(F(x)) for x in r['data']], **kw)
-            return t.apply(np.array(c['xs'], dtype=np.int32)).tolist()
+                                                lut_data=tab, **kw)
+            return t.apply(_xarr(c['xs'], 'i4', c.get('xlayout'))).tolist()
         return catch(f)
     if k == 'window':
         def f():
             from highdicom.pixels import apply_voi_window
-            return apply_voi_window(np.array([float(F(x)) for x in c['xs']]), float(F(c['c'])), float(F(c['w'])),
+            return apply_voi_window(_xarr([float(F(x)) for x in c['xs']], 'f8', c.get('xlayout')),
+                                    float(F(c['c'])), float(F(c['w'])),
                                     voi_lut_function=c['fn'],
                                     output_range=(float(F(c['yrange'][0])), float(F(c['yrange'][1]))),
                                     invert=c['invert']).tolist()
@@ -1659,6 +1950,11 @@ def coq_term(c):
                     f"{qlit(F(c['yrange'][1]))} {_b(c['invert'])})")
         if c['op'] == 'inverted':
             return f"(run_lut_inverted {zlit(c['first'])} {data} {c['bits']})"
+    if k == 'lut_layout':
+        # the model is given the MEMORY of the array (buffer, offset, stride, item size, byte order)
+        _, m = _mem_array(c['data'], 'u1' if c['bits'] == 8 else 'u2', c['layout'])
+        return (f"(run_lut_layout {zlit(c['first'])} {zl(m['buf'])} {zlit(m['off'])} {zlit(m['stride'])} "
+                f"{m['n']} {m['item']} {_b(m['big'])} {_b(c['file'])} {zl(c['xs'])})")
     if k == 'lut_big':
         L, a, b = c['gen']
         xs = [c['first'] - 1, c['first'], c['first'] + 1, c['first'] + L - 1, c['first'] + L]
@@ -2099,6 +2395,27 @@ def _oracle(c, out):
         if c['op'] == 'inverted':
             want = [min(data) + max(data) - v for v in data]
             return None if out == want else f'inverted {out[:5]} vs {want[:5]}'
+    if k == 'lut_layout':
+        if isinstance(out, Err):
+            return f'valid LUT ({c["cls"]}, layout {c["layout"]}) refused / mishandled: {out}'
+        data = c['data']
+        L = len(data)
+        n0, first, bits, nbytes, raw, got, app = out
+        if (n0, first, bits) != (0 if L == 65536 else L, c['first'], c['bits']):
+            return f'descriptor {(n0, first, bits)}'
+        import struct
+        std = struct.pack(f'<{L}H', *data) if c['bits'] == 16 else bytes(data) + (b'\0' if L % 2 else b'')
+        if nbytes != len(std) or raw != _summary(list(std), c):
+            return (f'stored LUTData {raw} is not the little-endian encoding {_summary(list(std), c)} of the '
+                    f'table that was given (layout {c["layout"]})')
+        if isinstance(got, Err):
+            return f'lut_data raises {got}'
+        if got != _summary(data, c):
+            return f'lut_data {got} differs from the table that was given {_summary(data, c)} (layout {c["layout"]})'
+        if isinstance(app, Err):
+            return f'apply refused: {app}'
+        want = [data[min(max(x - c['first'], 0), L - 1)] for x in c['xs']]
+        return None if app == want else f'apply {app} vs clipped lookup {want}'
     if k == 'lut_big':
         if isinstance(out, Err):
             return f'valid LUT of {c["gen"][0]} entries refused: {out}'
@@ -2226,8 +2543,58 @@ def _shrink_series(c):
             yield dict(c, rows=1, cols=1, frames=[[fr[i]] for fr in c['frames']])
 
 
+def _shrink_layouts(c):
+    """memory layouts: first all of them native, then one field at a time towards the plain contiguous array"""
+    import copy
+    keys = [k for k in ('layout', 'xlayout', 'tlayout') if c.get(k) is not None]
+    luts = [l for l in _each_lut(c) if l.get('layout') is not None]
+    chans = [i for i, l in enumerate(c.get('chan_layouts') or []) if l is not None]
+    if len(keys) + len(luts) + len(chans) > 1 or c.get('via') == 'objects':
+        d = copy.deepcopy(c)
+        for k in keys:
+            d[k] = None
+        for l in _each_lut(d):
+            l['layout'] = None
+        if d.get('via') == 'objects':
+            d['via'], d['chan_layouts'] = None, None
+        yield d
+    for k in keys:
+        yield dict(c, **{k: None})
+        for fld, plain in (('step', 1), ('lead', 0), ('trail', 0), ('how', 'view'), ('byteoff', 0), ('ro', False),
+                           ('big', False)):
+            if c[k].get(fld, plain) != plain:
+                yield dict(c, **{k: dict(c[k], **{fld: plain})})
+    for j in range(len(luts)):
+        d = copy.deepcopy(c)
+        l = [x for x in _each_lut(d) if x.get('layout') is not None][j]
+        lay = l['layout']
+        l['layout'] = None
+        yield d
+        for fld, plain in (('step', 1), ('lead', 0), ('trail', 0), ('how', 'view'), ('byteoff', 0), ('ro', False)):
+            if lay.get(fld, plain) != plain:
+                d = copy.deepcopy(c)
+                [x for x in _each_lut(d) if x.get('layout') is not None][j]['layout'][fld] = plain
+                yield d
+    for i in chans:
+        d = copy.deepcopy(c)
+        d['chan_layouts'][i] = None
+        yield d
+
+
 def shrink(c):
     k = c['kind']
+    yield from _shrink_layouts(c)
+    if k == 'lut_layout':
+        if c.get('file'):
+            yield dict(c, file=False)
+        if c['cls'] != 'LUT':
+            yield dict(c, cls='LUT')
+        n = len(c['data'])
+        if n > 1:
+            for i in range(n):
+                yield dict(c, data=c['data'][:i] + c['data'][i + 1:])
+        if c['first'] != 0:
+            yield dict(c, first=0, xs=[x - c['first'] for x in c['xs']])
     if k in MONO_KINDS and c.get('api') == 'series':
         yield from _shrink_series(c)
         return
